@@ -76,7 +76,7 @@ func runConvert(c *core.Ctx, r *rec, idx int) {
 	g := &Gen{r: c.Rand(fmt.Sprintf("convert-%d", idx)), uid: int64(idx) * 10_000_000}
 	cc := &convertCtx{r: r, fb: flatbuffers.NewBuilder(2048), dec: newStorageDecoder()}
 	nBatches := c.Pick(3000, 18000)
-	for b := 0; b < nBatches; b++ {
+	for b := 0; b < nBatches && !r.giveUp(); b++ {
 		mb := genMiniBatch(g, cc)
 		cc.runMiniBatch(g, mb)
 	}
